@@ -7,8 +7,10 @@ C02 — dispatching never panics and yields exactly the outcome of the decision 
         `C02_total_jsr`
   (3) classification, CurlyRouter                           — `C02_classify_curly_partial` (`ClassifyCurly`)
   (4) classification, RouterJSR311                          — `C02_classify_jsr_partial` (`ClassifyJsr`)
-  (5) why the hypotheses are there                          — `C02_F03_witness`, `C02_F04_witness`,
-        `C02_roots_witness` (below), `matchesAccept_iff_needs_hygiene` (`ClassifyHeaders`)
+  (5) why the hypotheses are there                          — `C02_F03_witness`, `C02_roots_witness`
+        (below), `matchesAccept_iff_needs_hygiene` (`ClassifyHeaders`)
+  (6) the repaired F04 (one notion of "has a body")         — `C02_F04_fixed` (below): the former
+        witness request now gets what the decision table says; `bodyCoherent` is no hypothesis any more
 
 Deviation from the statements first written down: under RouterJSR311 a WebService WITHOUT routes
 has a root path about which `Config.wfTemplates` says nothing; `compile` can fail on it (slice
@@ -54,7 +56,7 @@ def req03 : Req := { method := "GET".toList, path := "/123".toList }
     the first service (both roots score alike, the expression is not looked at), finds no route there
     and answers 404, while the only root that claims `/123` is the second one, whose route 1 must run -/
 theorem _root_.Restful.C02_F03_witness :
-    cfg03.wfTemplates = true ∧ Spec.mediaHygiene cfg03 = true ∧ Spec.bodyCoherent req03 = true ∧
+    cfg03.wfTemplates = true ∧ Spec.mediaHygiene cfg03 = true ∧
     Spec.noRootRegex cfg03 = false ∧
     route E03 cfg03 req03 = .error 404 none ∧
     (Spec.bestServices E03 cfg03 req03).map (·.id) = [1] ∧
@@ -71,17 +73,23 @@ def req04 : Req :=
   { method := "POST".toList, path := "/u".toList, contentType := "application/json".toList,
     accept := "text/plain".toList, clenHeader := [], contentLength := -1 }
 
-/-- F04: every hypothesis of `C02_classify_curly_partial` but `bodyCoherent` holds; a chunked POST
-    (`ContentLength = -1`, no `Content-Length` header) whose Content-Type is consumed and whose Accept
-    cannot be satisfied is answered 415 — the Accept stage takes the missing header for "no body" —
-    while the decision table says 406 -/
-theorem _root_.Restful.C02_F04_witness :
+/-- F04, repaired: the former witness of the defect — a chunked POST (`ContentLength = -1`, no
+    `Content-Length` header, so `bodyCoherent` fails) whose Content-Type is consumed and whose Accept
+    cannot be satisfied — used to be answered 415 (the Accept stage took the missing header for "no
+    body"); `detectRoute` now asks `ContentLength` in both places and answers 406, as the decision
+    table says -/
+theorem _root_.Restful.C02_F04_fixed :
     cfg04.wfTemplates = true ∧ Spec.mediaHygiene cfg04 = true ∧ Spec.noRootRegex cfg04 = true ∧
     Spec.bodyCoherent req04 = false ∧
-    route Eany cfg04 req04 = .error 415 none ∧
+    route Eany cfg04 req04 = .error 406 none ∧
     (Spec.bestServices Eany cfg04 req04).map (fun s => Spec.classifyIn Eany .curly s.built req04) = [.status 406 none] ∧
-    Spec.c02Holds Eany cfg04 req04 (route Eany cfg04 req04) 0 = false := by
+    Spec.c02Holds Eany cfg04 req04 (route Eany cfg04 req04) 0 = true := by
   decide
+
+/-- the same fact as an instance of the general theorem, which no longer asks for `bodyCoherent` -/
+example : Spec.c02Holds Eany cfg04 req04 (route Eany cfg04 req04)
+    (match route Eany cfg04 req04 with | .selected _ _ _ => 1 | _ => 0) = true :=
+  C02_classify_curly_partial Eany cfg04 rfl (by decide) (by decide) (by decide) req04
 
 /-! ### a route-less service with an unreadable root under RouterJSR311 -/
 
@@ -117,12 +125,12 @@ def post : Req :=
 /-- the hypotheses of `C02_classify_curly_partial` hold here, and a route runs -/
 example :
     cfgC.wfTemplates = true ∧ Spec.mediaHygiene cfgC = true ∧ Spec.noRootRegex cfgC = true ∧
-      Spec.bodyCoherent post = true ∧ route Eany cfgC post = .selected 0 1 [] := by
+      route Eany cfgC post = .selected 0 1 [] := by
   decide
 
 example : Spec.c02Holds Eany cfgC post (route Eany cfgC post)
     (match route Eany cfgC post with | .selected _ _ _ => 1 | _ => 0) = true :=
-  C02_classify_curly_partial Eany cfgC rfl (by decide) (by decide) (by decide) post (by decide)
+  C02_classify_curly_partial Eany cfgC rfl (by decide) (by decide) (by decide) post
 
 /-- the other rows of the table on the same services: 405 with Allow, 415 (body, Content-Type not
     consumed), 406, 404 inside the best service, 404 without a service -/
@@ -142,12 +150,12 @@ example :
 /-- the hypotheses of `C02_classify_jsr_partial` hold on the same table and request -/
 example :
     cfgJ.wfTemplates = true ∧ Jsr.rootsRead cfgJ = true ∧ Spec.mediaHygiene cfgJ = true ∧
-      '\n' ∉ post.path ∧ Spec.bodyCoherent post = true ∧ route Eany cfgJ post = .selected 0 1 [] := by
+      '\n' ∉ post.path ∧ route Eany cfgJ post = .selected 0 1 [] := by
   decide
 
 example : Spec.c02Holds Eany cfgJ post (route Eany cfgJ post)
     (match route Eany cfgJ post with | .selected _ _ _ => 1 | _ => 0) = true :=
-  C02_classify_jsr_partial Eany cfgJ rfl (by decide) (by decide) (by decide) post (by decide) (by decide)
+  C02_classify_jsr_partial Eany cfgJ rfl (by decide) (by decide) (by decide) post (by decide)
 
 end C02Witness
 end Restful
